@@ -278,7 +278,7 @@ var commonSigned = []string{"", "", "", "sig_bitflip", "payload_reencoded", "key
 	"sig_truncated", "sig_by_other_key", "key_subst_resigned", "key_subst_resigned_old_reveal", "reveal_substituted",
 	"reveal_unconfigured_alg", "extra_header", "alg_not_allowed", "alg_missing", "curve_not_allowed", "nonce_wrong_size",
 	"malformed_json", "missing_did_suffix", "missing_signed_data", "jws_two_parts", "jws_empty_sig", "payload_not_json",
-	"json_type_member_differs", "early", "late", "at_from", "at_until", "at_default_until", "after_default_until", "until_only"}
+	"json_type_member_differs", "early", "late", "at_from", "at_until", "at_default_until", "after_default_until", "until_only", "inverted_window"}
 
 var deltaMuts = []string{"delta_substituted", "delta_no_patches", "delta_disabled_action", "delta_invalid_patch",
 	"delta_oversize", "delta_bad_update_commitment", "delta_missing", "delta_missing_hash_of_null", "compose_fails",
@@ -296,7 +296,7 @@ func mutationsFor(typ string) []string {
 	case "recover":
 		return append(append(append([]string{}, commonSigned...), deltaMuts...), "key_reuse", "recovery_commitment_not_mh", "origin_object")
 	case "deactivate":
-		return append(append([]string{}, commonSigned...), "signed_suffix_mismatch")
+		return append(append([]string{}, commonSigned...), "signed_suffix_mismatch", "signed_suffix_missing", "recover_payload_replayed")
 	}
 	return []string{""}
 }
@@ -369,6 +369,12 @@ func (d *didState) buildOp(typ, mut string, t uint64, cfg *protocol.Protocol) bu
 		from, until = ti-delta0-1, 0
 	case "until_only":
 		from, until = 0, ti+int64(r.Intn(3))-1
+	case "inverted_window": // 0 < until < from: never effective; the validator must still see exactly this pair
+		from = ti - int64(r.Intn(30)) + 10
+		until = from - 1 - int64(r.Intn(5))
+		if until < 1 {
+			from, until = 7, 3
+		}
 	default:
 		switch r.Intn(4) {
 		case 0:
@@ -461,6 +467,14 @@ func (d *didState) buildOp(typ, mut string, t uint64, cfg *protocol.Protocol) bu
 		payload = map[string]interface{}{"didSuffix": d.suffix, "recoveryKey": nil}
 		if mut == "signed_suffix_mismatch" {
 			payload["didSuffix"] = d.suffix + "x"
+			v.ParseOK, v.SuffixOK = false, false
+		}
+		if mut == "signed_suffix_missing" {
+			delete(payload, "didSuffix")
+			v.ParseOK, v.SuffixOK = false, false
+		}
+		if mut == "recover_payload_replayed" { // what an observer of a published recover holds: no signed suffix at all
+			payload = map[string]interface{}{"recoveryKey": nil, "deltaHash": deltaHash, "recoveryCommitment": commitmentOf(nextRec.jwk(), code)}
 			v.ParseOK, v.SuffixOK = false, false
 		}
 		addWindow(payload)
@@ -734,7 +748,7 @@ func genHistory(r *rand.Rand, focus string, maxLen int) (*histCase, []protocol.P
 		case "window":
 			for _, m := range muts {
 				switch m {
-				case "", "early", "late", "at_from", "at_until", "at_default_until", "after_default_until", "until_only", "compose_fails":
+				case "", "early", "late", "at_from", "at_until", "at_default_until", "after_default_until", "until_only", "inverted_window", "compose_fails":
 					pool = append(pool, m)
 				}
 			}
@@ -742,7 +756,7 @@ func genHistory(r *rand.Rand, focus string, maxLen int) (*histCase, []protocol.P
 			for _, m := range muts {
 				if m == "" || strings.HasPrefix(m, "sig_") || strings.HasPrefix(m, "key_") || strings.HasPrefix(m, "reveal_") ||
 					strings.HasPrefix(m, "delta_substituted") || strings.Contains(m, "header") || strings.HasPrefix(m, "alg_") ||
-					m == "payload_reencoded" || m == "kid_added_no_resign" || m == "signed_suffix_mismatch" || strings.HasPrefix(m, "jws_") {
+					m == "payload_reencoded" || m == "kid_added_no_resign" || strings.HasPrefix(m, "signed_suffix_") || m == "recover_payload_replayed" || strings.HasPrefix(m, "jws_") {
 					pool = append(pool, m)
 				}
 			}
